@@ -387,6 +387,33 @@ fn enumerate_record(ty: Ty, codec: Codec, clean: &[u8], stats: &mut Stats) -> Op
             }
             buf[pos] = clean[pos];
         }
+        // every byte replaced by its code neighbours and by the punctuation that sits next
+        // to the digits in ASCII (a digit test by high nibble accepts ':' .. '?')
+        for pos in 0..clean.len() {
+            let orig = clean[pos];
+            for cand in [orig.wrapping_add(1), orig.wrapping_sub(1), b':', b';', b'<', b'=', b'>', b'?', b'/', b'.', b' ', b'+', b'-'] {
+                if cand == orig {
+                    continue;
+                }
+                buf[pos] = cand;
+                let got = codec::decode_slice(ty, codec, &buf);
+                stats.decodes += 1;
+                stats.enumerated_decodes += 1;
+                stats.fault_configured[12] += 1;
+                stats.fault_fired[12] += 1;
+                let oc = match &got {
+                    Decoded::Ok(_) => "ok",
+                    Decoded::Err => "err",
+                    Decoded::Panic(_) => "panic",
+                };
+                stats.distinct(ty, codec, "byte_substitution", (pos.min(40) * 16 + (cand % 16) as usize) as u64, oc);
+                let what = format!("{} (byte {} of {} replaced)", show_bytes(&buf), pos, show_bytes(clean));
+                if let Some(v) = judge(ty, codec, "byte_substitution", &got, None, &what, stats) {
+                    return Some(v);
+                }
+            }
+            buf[pos] = orig;
+        }
         // every numeric field replaced by boundary numbers of the same width, and +/- 1
         let mut start = 0;
         while start < clean.len() {
@@ -1825,7 +1852,7 @@ fn main() {
         "coverage": {
             "evaluations": total.decodes,
             "distinct_nontrivial": total.distinct.len(),
-            "rule": "evaluations = decode executions of the real Deserialize impls through the storage seam (restart read-back of every catalogued record + per-record enumeration of EVERY single-bit flip and EVERY truncation length of the record as serialized). distinct_nontrivial = distinct (type, codec, fault kind on the record's own bytes, damaged bit / surviving length class, ok|err|panic) tuples among decodes where a fault actually hit the record.",
+            "rule": "evaluations = decode executions of the real Deserialize impls through the storage seam: restart read-back of every catalogued record (its own type, then the five other types), plus, for every record of an enumerating run, EVERY single-bit flip, EVERY truncation length and (text form) every single-digit substitution, every byte replaced by its ASCII neighbours and digit-adjacent punctuation, and every numeric field replaced by boundary numbers of the same and of different widths; plus payloads from other formats (JSON values that are not strings, primitives of every serde kind). distinct_nontrivial = distinct (type, codec, fault kind on the record's own bytes or foreign payload kind, damaged position / value class, ok|err|panic) tuples among decodes where a fault or foreign payload was actually involved.",
             "exhaustive": false,
             "samples": samples,
             "runs": {"fault_free": clean_runs, "fault_injecting": fault_runs, "control_sweep_items": ctrl_items},
